@@ -333,3 +333,63 @@ Proof.
   - rewrite H, andb_false_r. reflexivity.
   - rewrite H, andb_false_r. reflexivity.
 Qed.
+
+(* ---- seeded/C18-2: "no need to hash the body of bodiless requests" -----------------------------
+   computeBodySignature returns the digest of the EMPTY body whenever ContentLength <= 0, also for a
+   body of unknown length (chunked, ContentLength = -1).  A header correctly signed for an empty
+   body is then accepted with any chunked body appended. *)
+Definition pinned_digest_body (r : cs_req) : list Z := if r_clen r <=? 0 then [] else r_body r.
+
+Definition pinned_bodiless_handler (rsa_dec : Z -> Z -> option cs_secret) (cmac : Z -> content -> Z) (sha : list Z -> Z)
+           (strict : bool) (decs : list (Z * Z)) (tol now : Z) (r : cs_req) : bool :=
+  (* the gate's decision is taken on the request whose body, for the digest, is [pinned_digest_body r] *)
+  match fst (cs_gate true rsa_dec cmac sha strict decs tol now
+                     (mkReq (r_method r) (r_path r) (r_query r) (r_xuri r) (r_hdr r) (r_clen r) (pinned_digest_body r))) with
+  | ActReject => false
+  | _ => true
+  end.
+
+Definition pin_sha (b : list Z) : Z := match b with [] => 9 | x :: _ => 100 + x end.
+
+(* POST (3) to path 1 / query 1 with ContentLength = -1 and body "A...": the signature is the MAC over the digest of
+   the EMPTY body.  The variant lets it through; the modelled handler answers 403, and so it does for every
+   content length when the digests differ (the signature is not the MAC of the body sent). *)
+Theorem pinned_bodiless_digest_refuted :
+  let sig_empty := pin_cmac 3 (1, 3, 1, 1, pin_sha []) in
+  let r := mkReq 3 1 1 None (mkHdr (Some 1) (Some 1) (Some sig_empty)) (-1) [65; 66; 67] in
+  pinned_bodiless_handler pin_rsa pin_cmac pin_sha true [(1, 1)] 10 505 r = true /\
+  cs_handler true pin_rsa pin_cmac pin_sha (fun _ => true) (fun _ b => b) (fun _ b => b) (fun b => b) (fun b => Some b)
+             true [(1, 1)] 10 505 1024 r [] = mkHout false 403 [] [] false.
+Proof. vm_compute. split; reflexivity. Qed.
+
+(* ---- seeded/C18-8: the claims map comes from a pool and is not cleared when a token is REJECTED -----
+   A rejected token whose payload decodes leaves its claims in the pooled map; the next accepted token
+   is decoded into the same map, so the handler sees the rejected token's claims it does not itself carry. *)
+Section PinnedPool.
+  Variable mac : alg -> Z -> Z -> Z.
+
+  (* decoding INTO a map that still has entries: the new token's claims win, the rest stays *)
+  Definition decode_into (pool : list (Z * cval)) (t : token) : list (Z * cval) :=
+    tclaims t ++ filter (fun kv => negb (existsb (fun kv' => fst kv' =? fst kv) (tclaims t))) pool.
+
+  (* one secret; returns the pool left behind and what the handler saw (None: rejected) *)
+  Definition pinned_pooled_authorize (pool : list (Z * cval)) (k now : Z) (cr : cred)
+    : list (Z * cval) * option (list (Z * cval)) :=
+    match cr with
+    | CToken t =>
+      let m := decode_into pool t in
+      if parse1 mac now k t then ([], Some (deliver (mkToken (talg t) (tinput t) (tsig t) m)))   (* Release clears *)
+      else (m, None)                                                                             (* not cleared *)
+    | _ => (pool, None)
+    end.
+End PinnedPool.
+
+Theorem pinned_pooled_claims_refuted :
+  let mac := fun (a : alg) (k i : Z) => 1 + k + 10 * i in
+  let forged := mkToken HS256 7 (Some 0) [(2, VNum 2000); (20, VOther 1)] in          (* claim 20 = "admin", bad signature *)
+  let good := mkToken HS256 8 (Some (mac HS256 5 8)) [(2, VNum 2000); (10, VNum 7)] in
+  let '(pool, seen1) := pinned_pooled_authorize mac [] 5 1000 (CToken forged) in
+  let '(_, seen2) := pinned_pooled_authorize mac pool 5 1000 (CToken good) in
+  seen1 = None /\ seen2 = Some [(10, VNum 7); (20, VOther 1)] /\
+  map jctx (run_jwt mac [] (mkJcfg 5 None) [(1000, CToken forged); (1000, CToken good)]) = [[]; [(10, VNum 7)]].
+Proof. vm_compute. repeat split; reflexivity. Qed.
